@@ -52,7 +52,9 @@ RULE = ('cases: attribute sections of 1..6 vendor subsections x 0..5 file/sectio
         'present or absent; the models take the decoded header; the image is handed to the library as a drawn stream kind '
         '(BytesIO, buffered file fresh / warmed / small 16-byte buffer / at EOF, mmap, gzip, in-memory with a decoy '
         'descriptor); in histories on in-memory images the objects (section, subsection, sub-subsection, EHABIInfo, its '
-        'structs, the ELFFile) are also pickled / deep-copied / copied and the copy is used from then on; byte-code: every first byte x every operand byte, random instruction '
+        'structs, the ELFFile) are also pickled / deep-copied / copied and the copy is used from then on; the caller edits '
+        'what it was given in place (EHABIEntry.function_offset / bytecode_array, Attribute objects and result lists) and asks '
+        'again; byte-code: every first byte x every operand byte, random instruction '
         'lists with multi-byte uleb128 operands, raw byte strings. Histories: on sections of 1..4 subsections, call '
         'sequences of 3..16 operations over the section object and every object it hands out (start a walk with or '
         'without vendor/scope/tag limit, next, close, drop, num_*, list property, complete fresh walk, unrelated seek), '
@@ -600,6 +602,12 @@ def rand_eh_hist(rng, kinds, n, copies=False):
             hist.append(['get', k])
             if k < nent:
                 entries.append(kinds[k])
+        elif r < 0.46:
+            hist.append(['mutate', rng.randrange(len(entries))])       # the caller edits what it was given ...
+            if rng.random() < 0.6:                                     # ... and asks for an entry again
+                k = rng.randrange(nent)
+                hist.append(['get', k])
+                entries.append(kinds[k])
         elif r < 0.49:
             hist.append(['fields', rng.randrange(len(entries))])
         elif r < 0.63:
@@ -796,6 +804,20 @@ def observe_attr_hist(img, name, hist, stream=None):
     def flt(f):
         return None if f is None or f == 'none' else f.decode('utf-8')
 
+    def scramble(x):
+        """after having looked at it, the caller edits what it was given (Attribute objects, result lists):
+        they are the caller's, nothing the library answers later may depend on them"""
+        if isinstance(x, list):
+            for y in x:
+                scramble(y)
+            x.clear()
+        elif not isinstance(x, (AttributesSubsection, AttributesSubsubsection)):
+            if isinstance(x.extra, list):
+                x.extra.append(0x5a5a)
+            else:
+                x.extra = 'scrambled'
+            x.value = None
+
     def step(op):
         k = op[0]
         if k == 'disturb':
@@ -818,7 +840,11 @@ def observe_attr_hist(img, name, hist, stream=None):
                 return ['int', getattr(o, NUM_P[lvl])]
             xs = getattr(o, LIST_P[lvl]) if k == 'list' else list(getattr(o, ITER_M[lvl])(flt(op[2])))
             first = len(objs)
-            return ['items', first, [see(x) for x in xs]]
+            seen = [see(x) for x in xs]
+            if lvl == 2 and k == 'list':
+                del xs[0]       # .attributes starts with the sub-subsection's own header object: not the caller's to edit
+            scramble(xs)
+            return ['items', first, seen]
         if not 0 <= op[1] < len(gens):
             return ['bad']
         g = gens[op[1]]
@@ -831,6 +857,7 @@ def observe_attr_hist(img, name, hist, stream=None):
                 return ['stop']
             n = len(objs)
             v = see(x)
+            scramble(x)
             return ['item', n if len(objs) > n else None, v]
         if k == 'close':
             if g is not DROPPED:
@@ -881,17 +908,23 @@ def observe_eh_hist(img, hist, stream=None):
             e = info.get_entry(op[1])
             entries.append(e)
             return fields(e)
-        if k in ('fields', 'mnem', 'decoder'):
+        if k in ('fields', 'mnem', 'decoder', 'mutate'):
             if not 0 <= op[1] < len(entries):
                 return ['bad']
             e = entries[op[1]]
+            if k == 'mutate':           # the caller's own object: EMutate of Spec/C20Hist.v
+                if e.function_offset is not None:
+                    e.function_offset += 0x1000
+                if e.bytecode_array is not None:
+                    e.bytecode_array.append(0xb0)
+                return ['unit']
             if k == 'fields':
                 return fields(e)
             if k == 'mnem':
                 return items(e.mnmemonic_array())
             if e.bytecode_array is None:
                 return ['bad']
-            d = EHABIBytecodeDecoder(e.bytecode_array)
+            d = EHABIBytecodeDecoder(list(e.bytecode_array))     # a decoder keeps the list it is given
             decs.append(d)
             return items(d.mnemonic_array)
         if not 0 <= op[1] < len(decs):
